@@ -267,6 +267,12 @@ pub fn code_7702(rng: &mut Prng, n_eoa: usize, base: usize, hot_slots: u64, pre_
         auth_tx(6, rs[6], vec![(Some(authority), t2, 0, 5)], "7702-wrong-chain"),
         auth_tx(7, rs[7], vec![(None, t1, 0, 0), (Some(authority), t1, 0, 0)], "7702-invalid-signature-then-valid"),
         auth_tx(8, authority, vec![(Some(authority), t1, 0, 0)], "7702-self-sponsored"),
+        // delegation to a stock precompile address (executes as empty code), to another delegated EOA
+        // (no chain following: the designator itself is the code) and self-sponsored with a follow-up
+        // transaction of the same sender
+        auth_tx(15, rs[15], vec![(Some(authority), addr(*rng.pick(&[2u64, 4, 9])), 0, 0)], "7702-delegate-to-precompile"),
+        auth_tx(15, rs[15], vec![(Some(authority), eoa(other), 0, 0), (Some(other), t1, 0, 0)], "7702-delegate-to-delegated"),
+        auth_tx(8, authority, vec![(Some(authority), t2, 0, 1), (Some(authority), t1, 1, 0)], "7702-self-sponsored-twice"),
         Intent::call(rs[9], a, &[0, 2], "call-authority"),
         Intent::call(rs[10], a, &[0, 3], "call-authority-b"),
         Intent::call(rs[11], q, &[0, 1], "probe-authority"),
@@ -331,11 +337,11 @@ pub fn precompile_template(
     let nested = contract(base);
     let static_caller = contract(base + 1);
     let reverting = contract(base + 2);
-    let kinds = if spec >= SpecId::BYZANTIUM { vec![CallKind::Call, CallKind::Static, CallKind::Delegate] } else { vec![CallKind::Call] };
+    let kinds = if spec >= SpecId::BYZANTIUM { vec![CallKind::Call, CallKind::Static, CallKind::Delegate, CallKind::CallCode] } else { vec![CallKind::Call, CallKind::CallCode] };
     let pc = |rng: &mut Prng| *rng.pick(&[bank, bank, observer, observer, mutator, ignorer, halter, remapper]);
     let mut nested_prog = Vec::new();
     for _ in 0..rng.range(1, 3) {
-        nested_prog.push(Stmt::CallRaw { kind: *rng.pick(&kinds), to: addr_expr(pc(rng)), value: imm(0), data: cmd(rng), gas: 100_000 });
+        nested_prog.push(Stmt::CallRaw { kind: *rng.pick(&kinds), to: addr_expr(pc(rng)), value: imm(if rng.chance(1, 4) { 1 + rng.below(3) } else { 0 }), data: cmd(rng), gas: 100_000 });
         nested_prog.push(Stmt::Mix(sload(imm(rng.below(2)))));
     }
     nested_prog.push(Stmt::Sstore(imm(0), add(sload(imm(0)), imm(1))));
@@ -497,6 +503,19 @@ pub fn reserve_template(rng: &mut Prng, n_eoa: usize, base: usize, pre_state: &m
     if rng.chance(1, 2) {
         // a credit to the delegated account before / between the debits
         intents.push(Intent { sender: s(rng), to: Some(a), value: U256::from(*rng.pick(&amounts)), data: Bytes::from(vec![0u8; 64]), gas_limit: 200_000, auths: vec![], label: "credit-delegated" });
+    }
+    if rng.chance(1, 5) {
+        // the delegation itself changes inside the block: cleared, re-pointed to the refunder (whose code
+        // sends value back), or set for another account - carried by somebody else's transaction
+        let sender = s(rng);
+        let auth = match rng.below(3) {
+            0 => (Some(delegated), Address::ZERO, 0i64, 0u64),
+            1 => (Some(delegated), refunder, 0, 1),
+            _ => (Some(sender), w, 0, 0),
+        };
+        let mut i = Intent::call(sender, a, &[0, *rng.pick(&amounts), *rng.pick(&amounts)], "call-delegated-with-auth");
+        i.auths = vec![auth];
+        intents.push(i);
     }
     rng.shuffle(&mut intents);
     // call-back contract: forwards its second calldata word to the delegated account's code
